@@ -267,8 +267,14 @@ func (u *Unmarshaler) fillSliceWithDefault(derefedType reflect.Type, value refle
 	defaultValue, fullName string) error {
 	baseFieldType := Deref(derefedType.Elem())
 	baseFieldKind := baseFieldType.Kind()
+	// string elements and all other elements are parsed differently,
+	// the same default text must not share one cache entry.
+	cacheKey := defaultValue
+	if baseFieldKind == reflect.String {
+		cacheKey = "string:" + defaultValue
+	}
 	defaultCacheLock.Lock()
-	slice, ok := defaultCache[defaultValue]
+	slice, ok := defaultCache[cacheKey]
 	defaultCacheLock.Unlock()
 	if !ok {
 		if baseFieldKind == reflect.String {
@@ -278,7 +284,7 @@ func (u *Unmarshaler) fillSliceWithDefault(derefedType reflect.Type, value refle
 		}
 
 		defaultCacheLock.Lock()
-		defaultCache[defaultValue] = slice
+		defaultCache[cacheKey] = slice
 		defaultCacheLock.Unlock()
 	}
 
